@@ -149,10 +149,13 @@ static Scalars scalars_of(const ASTNode *n, bool all) {
     if (n->function_pointer_type.return_type != TYPE_UNKNOWN || !n->function_pointer_type.param_types.empty())
         out.push_back({"function_pointer_type", std::to_string((int)n->function_pointer_type.return_type) + "/" +
                                                     std::to_string(n->function_pointer_type.param_types.size())});
-    if (!n->match_arms.empty()) {
-        std::string s;
-        for (auto &a : n->match_arms) { s += a.variant_name + "(" ; for (auto &b : a.bindings) s += b + ","; s += ")" + a.enum_type_name + ";"; }
-        out.push_back({"match_arms", s});
+    {
+        std::string s; bool any = false;
+        for (auto &a : n->match_arms) {
+            if (!a.variant_name.empty() || !a.bindings.empty() || !a.enum_type_name.empty()) any = true;
+            s += a.variant_name + "("; for (auto &b : a.bindings) s += b + ","; s += ")" + a.enum_type_name + ";";
+        }
+        if (any) out.push_back({"match_arms", s});
     }
     if (!n->interface_bounds.empty()) out.push_back({"interface_bounds", std::to_string(n->interface_bounds.size())});
     if (n->foreign_module_decl) out.push_back({"foreign_module_decl", "set"});
